@@ -258,6 +258,9 @@
 // only enables the `doc_cfg` feature when
 // the `docsrs` configuration attribute is defined
 #![cfg_attr(docsrs, feature(doc_cfg))]
+// verification hook (cfg(kani) is set by `cargo kani` only): unstable features used by the harness stubs
+#![cfg_attr(kani, feature(allocator_api, formatting_options))]
+#![cfg_attr(kani, recursion_limit = "1024")]
 
 pub use candid_derive::{candid_method, export_service, CandidType};
 pub use serde::Deserialize;
